@@ -332,24 +332,39 @@ def run_job(job):
                         out['outcomes']['valid:by-design static rejection ' + _norm_msg(r['msgs'][0][2])] += 1
                     else:
                         out['bad'].append((pid, c[0], c[1], r.get('text', '')))
+            accepted = []
             for k, (pid, text, v) in enumerate(other):
                 if v is None:
                     out['undecided'] += 1
                 else:
                     out['invalid'] += 1
+                packable = isinstance(text, str)
                 data = text if isinstance(text, bytes) else (job.get('header', '') + text).encode('utf-8', 'surrogatepass')
-                r = compile_one('s%d_%d' % (job['id'], k), data, '.py', wd, cplus=cplus, gcc=True)
+                # the C of accepted-though-invalid blocks is checked in packs afterwards (one gcc run instead of one each)
+                r = compile_one('s%d_%d' % (job['id'], k), data, '.py', wd, cplus=cplus, gcc=not packable)
                 out['compiles'] += 1
                 c = _classify_invalid(r)
                 if c is None:
                     if r['status'] == 'ok':
                         out['accepted_invalid'] += 1
                         out['outcomes']['invalid:accepted'] += 1
+                        if packable:
+                            accepted.append((pid, text))
                     else:
                         out['rejected_invalid'] += 1
                         out['outcomes']['invalid:' + _norm_msg(r['msgs'][0][2])] += 1
                 else:
                     out['bad'].append((pid, c[0], c[1], r.get('text', '')))
+            if accepted:
+                st = dict(name='x%d' % job['id'], n=0, header=job.get('header', ''), ext='.py', wd=wd, cplus=cplus, compiles=0, ok=0,
+                          bad=[], helpers=set())
+                for i in range(0, len(accepted), job.get('pack', PACK)):
+                    _solve(st, accepted[i:i + job.get('pack', PACK)])
+                out['compiles'] += st['compiles']
+                for pid, r in st['bad']:
+                    c = _classify_invalid(r)
+                    if c is not None:
+                        out['bad'].append((pid, c[0], c[1], r.get('text', '')))
         else:
             cache = {}
             for k, (pid, ext, data) in enumerate(job['items']):
